@@ -86,7 +86,13 @@ def dj_bases(M):
         ("filter-owner", lambda: I.objects.filter(owner__rank__gte=0), False, None),
         ("filter-parts", lambda: I.objects.filter(parts__n__gte=0), False, None),
         ("distinct", lambda: I.objects.filter(parts__n__gte=0).distinct(), False, None),
+        ("custom-manager", lambda: I.positive, True, None),
+        ("related-manager", lambda: _first_owner(M).items if _first_owner(M) is not None else I.objects.none(), False, None),
     ]
+
+
+def _first_owner(M):
+    return M.Owner.objects.order_by("id").first()
 
 
 def restrict(base_rows, keep):
@@ -95,6 +101,28 @@ def restrict(base_rows, keep):
 
 def navigates(t):
     return any(x[0] in ("path", "lambda") or (x[0] == "id" and x[1] in ("owner", "parts", "tags")) for x in walk(t))
+
+
+def needed_joins(t):
+    """Number of distinct to-one relationship hops the filter navigates outside lambda bodies."""
+    hops = set()
+
+    def go(x):
+        if x[0] == "lambda":
+            segs = rel.segments(x[1])
+            for i in range(1, len(segs)):
+                hops.add(tuple(segs[:i]))
+            return
+        if x[0] == "path":
+            segs = rel.segments(x)
+            for i in range(1, len(segs)):
+                hops.add(tuple(segs[:i]))
+            return
+        from ..terms import children
+        for c in children(x):
+            go(c)
+    go(t)
+    return len(hops)
 
 
 def uses_body_to_one(t):
@@ -142,11 +170,19 @@ def check_case(case, fenced=True):
                 return ("sa:%s:not-a-restriction-of-the-base" % name,
                         "%r on base %s: base rows %r, filter keeps %r, expected %r, got %r" % (
                             text, name, base_rows, sorted(keep[unf]), exp, got))
-            if "owner" in name and kind != "core":
+            if kind != "core":
                 sql = str(applied.statement.compile(S.engine)) if kind == "legacy" else str(applied.compile(S.engine))
-                n_join = sql.upper().count("JOIN OWNER ")
-                if n_join > 1:
+                base_q = mk()
+                base_sql = str(base_q.statement.compile(S.engine)) if kind == "legacy" else str(base_q.compile(S.engine))
+                outer = sql.upper().split(" WHERE ")[0]
+                n_join = outer.count(" JOIN ")
+                allowed = base_sql.upper().split(" WHERE ")[0].count(" JOIN ") + needed_joins(t)
+                if "owner" in name and outer.count("JOIN OWNER ") > 1:
                     return ("sa:%s:relationship-joined-twice" % name, "%r: %s" % (text, sql))
+                if n_join > allowed:
+                    return ("sa:%s:more-joins-than-the-filter-needs" % name,
+                            "%r: %d joins in the FROM clause, base has %d and the filter navigates %d to-one relationships: %s" % (
+                                text, n_join, allowed - needed_joins(t), needed_joins(t), sql))
     # ---- Django ----
     M = db_orm.django_load(inst)
     from odata_query.django import apply_odata_query as dj_apply
